@@ -1004,7 +1004,8 @@ def parse_date(value: str | None) -> datetime | None:
 
     try:
         dt = email.utils.parsedate_to_datetime(value)
-    except (TypeError, ValueError):
+    except (TypeError, ValueError, OverflowError):
+        # OverflowError: a year or zone offset too large for datetime's C ints
         return None
 
     if dt.tzinfo is None:
